@@ -151,6 +151,33 @@ theorem listRoot_eq_spec (hZ : ∀ k, Z k = zeroAt H z0 k) (depth : Nat) (l : Li
   unfold listRoot
   rw [treeRootZ_eq_spec H z0 Z hZ]
 
+/-- **Deposit proofs verify against the list root with depth `depth + 1`.** For every leaf `i` of a list of
+leaves, the branch made of the siblings of leaf `i` in the (zero-padded) depth-`depth` tree followed by the length
+chunk is accepted by the specification's `is_valid_merkle_branch` with depth `depth + 1` and index `i` against
+`hash_tree_root(List[…, 2^depth])` of the leaves — this is why `process_deposit` verifies with
+`DEPOSIT_CONTRACT_TREE_DEPTH + 1`: the extra level is the `List` length mix-in. -/
+theorem deposit_proof_verifies [DecidableEq α] (depth : Nat) (leaves : List α) (i : Nat) (hi : i < leaves.length)
+    (hlen : leaves.length ≤ 2 ^ depth) :
+    isValidMerkleBranch H (leaves.getD i z0) (proofOf H z0 depth leaves i ++ [lenNode leaves.length]) (depth + 1) i
+      (H (merkleizeSpec H z0 depth leaves) (lenNode leaves.length)) = true := by
+  have hi2 : i < 2 ^ depth := by omega
+  have hplen := proofOf_length H z0 depth leaves i
+  unfold isValidMerkleBranch
+  simp only [decide_eq_true_eq]
+  show pathFold H (proofOf H z0 depth leaves i ++ [lenNode leaves.length]) i (leaves.getD i z0) (depth + 1) = _
+  rw [pathFold_succ]
+  have hinner : pathFold H (proofOf H z0 depth leaves i ++ [lenNode leaves.length]) i (leaves.getD i z0) depth =
+      treeRoot H z0 depth leaves := by
+    rw [pathFold_congr H _ (proofOf H z0 depth leaves i) i i _ depth
+      (fun k hk v => by simp [List.getD, List.getElem?_append_left (by omega : k < (proofOf H z0 depth leaves i).length)])
+      (fun _ _ => rfl)]
+    exact pathFold_proofOf H z0 depth leaves i hi2
+  have hbit : i / 2 ^ depth % 2 ≠ 1 := by rw [Nat.div_eq_of_lt hi2]; decide
+  simp only [hinner, if_neg hbit]
+  rw [merkleizeSpec, treeRoot_append_replicate]
+  congr 1
+  simp [List.getD, hplen]
+
 end Merkle
 
 /-- Instance for SHA-256 and the deposit tree: the root the code-shaped model maintains incrementally is the
